@@ -70,7 +70,10 @@ class Replay:
         self.drift = 0
 
     # ------------------------------------------------------------------
-    def add(self, step: int, kind: str, msg: str) -> None:
+    def add(self, step: int, kind: str, msg: str, fp_override: Optional[str] = None) -> None:
+        if fp_override is not None:
+            self.findings.append((step, kind, fp_override, msg))
+            return
         ev = self.beh[step]
         n = len(self.beh[step - 1]['raw']) if step else 0
         vn = len(self.beh[step - 1]['views'].get(ev['view'], [])) if step else 0
@@ -216,17 +219,7 @@ class Replay:
             view[batch[0].key] = batch[0]
 
     def set_val(self, obj: Any, val: int) -> None:
-        host = self.host
-        ty, _ = host.proj(obj)
-        target = host.make(ty, val, None)
-        if isinstance(obj, models.BlockComment):
-            obj.value = target.value
-        elif isinstance(obj, models.MetaItem):
-            obj.key = target.key
-        elif isinstance(obj, (models.Open, models.Close, models.Posting)):
-            obj.account = target.account
-        else:
-            obj.value = target.value
+        self.host.set_val(obj, val)
 
     # ------------------------------------------------------------------
     def snapshot(self) -> dict:
@@ -388,7 +381,7 @@ class Replay:
                                           f'{snap["text"]!r} -> {text!r}')
         if ok:
             trip3 = [(t, v, self.payload.get(sid)) for sid, t, v in spec_raw]
-            if self.layout == 0 and 'text' in self.check:
+            if self.layout == 0 and host.canonical and 'text' in self.check:
                 exp_text = host.doc_text(trip3, 0)
                 if text != exp_text:
                     self.add(step, 'text', f'printed {text!r}, Doc(raw) renders {exp_text!r}')
@@ -535,7 +528,12 @@ class Replay:
         try:
             c1, c2 = tree.content(self.file), tree.content(f2)
             if c1 != c2:
-                self.add(step, 'reparse', f'content differs after re-parse of {text!r}')
+                import re as _re
+                fpo = None
+                if host.name == 'custom.values' and _re.search(r'(\d|\))\s+-\d', text.split('\n')[0]):
+                    # a negative number written directly after a number reads back as a subtraction
+                    fpo = 'custom.values/negative-number-after-number'
+                self.add(step, 'reparse', f'content differs after re-parse of {text!r}', fpo)
                 return
             p2 = host.locate(f2)
             # what every view says in memory must be what the same view says on the re-parsed text
@@ -558,6 +556,8 @@ class Replay:
 
     # ------------------------------------------------------------------
     def run(self) -> list[tuple[int, str, str, str]]:
+        if any(ev['op'] in self.host.skip_ops for ev in self.beh[1:]):
+            return []
         self.build()
         if self.touch_views_first:
             # register every view's update handler before the first mutation
